@@ -23,6 +23,7 @@ class Clock:
         self.log = []
         self.frozen = False
         self.last = BASE
+        self.aliased_results = []
 
     def time(self):
         if self.frozen:
@@ -84,6 +85,16 @@ def make_socket_class(clock, rnd):
     class HSocket(FS.FakeSocket):
         def _decode_error(self, error):
             return RawError(error.value)
+
+        def _decode_result(self, result):
+            # runs after the server lock was released: the command's result must not be a container that is stored in a database
+            if isinstance(result, (list, dict, set)) and self._server is not None:
+                for i, db in self._server.dbs.items():
+                    for k, it in db._dict.items():
+                        v = it.value
+                        if v is result or getattr(v, '_byscore', None) is result or getattr(v, '_bylex', None) is result:
+                            clock.aliased_results.append((i, k))
+            return FS.FakeSocket._decode_result(self, result)
 
         def sort(self, key, *args):
             # list(set) order is a Python runtime choice: record it as a hint for the model
